@@ -23,7 +23,7 @@ func NewGen(seed int64) *Gen {
 		Provs:  []string{"p1", "p2", "p3", "pz"},
 		Cons:   []string{"c1", "c2"},
 		All:    PoolNames,
-		Svcs:   []string{"s1", "s2", "s", "s-1"},
+		Svcs:   []string{"s1", "s2", "s", "s-1", "S1"},
 	}
 }
 
@@ -37,6 +37,7 @@ var paramSets = []MParams{
 	{MaxTimeout: 8, Multiple: 2, MinDeposit: 12, Tax: 333, Slash: 0, RefundDelay: 3},
 	{MaxTimeout: 5, Multiple: 1, MinDeposit: 20, Tax: 50, Slash: 500, RefundDelay: 8},
 	{MaxTimeout: 100, Multiple: 200, MinDeposit: 6000, Tax: 100, Slash: 1, RefundDelay: 20},
+	{MaxTimeout: 5, Multiple: 4, MinDeposit: 0, Tax: 100, Slash: 250, RefundDelay: 5}, // no global minimum: the price alone bounds the deposit
 }
 
 func (g *Gen) Reset(tag string) Ev {
@@ -128,7 +129,7 @@ func (g *Gen) paramOp(st *State) Ev {
 		case 2:
 			p.Tax = g.in(0, 50, 100, 333, 999)
 		case 3:
-			p.MinDeposit = g.in(1, p.MinDeposit/2+1, p.MinDeposit+3, p.MinDeposit*2)
+			p.MinDeposit = g.in(0, 1, p.MinDeposit/2+1, p.MinDeposit+3, p.MinDeposit*2)
 		case 4:
 			p.Multiple = g.in(1, 2, p.Multiple+1)
 		default:
@@ -188,6 +189,9 @@ func (g *Gen) bind(st *State) Ev {
 	dep := md + g.in(0, 0, 1, 2, md/2, md)
 	if g.chance(0.1) {
 		dep = md - 1
+	}
+	if dep < 1 { // (no global minimum and a price of zero: any deposit will do)
+		dep = 1
 	}
 	owner, prov := g.pick(g.Owners), g.pick(g.Provs)
 	if g.chance(0.12) {
